@@ -102,6 +102,16 @@ def gen_structured(ctx, n):
         if r.random() < 0.05:
             c["origin"] = None
             style = "default_origin"
+        elif not exact_wanted and r.random() < 0.3:
+            # the origin given in another length unit than the positions (it must be converted, not read as it is)
+            u = r.choice(["m", "mm", "km"])
+            f = {"m": 100.0, "mm": 0.1, "km": 1.0e5}[u]
+            c["origin"] = [t / f for t in c["origin"]]
+            c["origin_unit"] = u
+            style += "+unit_" + u
+        if not exact_wanted and r.random() < 0.2:
+            c["size_unit"] = r.choice(["mm", "m", "km"])      # cell sizes in another unit than the positions
+            style += "+sizes_in_" + c["size_unit"]
         # direction
         if nd == 2:
             c["direction"] = {"kind": "letter", "s": "z"}
